@@ -205,12 +205,10 @@ func (v *collator_[V]) compareMaps(first ref.Value, second ref.Value) bool {
 }
 
 func (v *collator_[V]) compareIntrinsics(first, second ref.Value) bool {
-	switch first.Kind() {
-	case ref.Float32, ref.Float64:
-		// An undefined number (NaN) is only equal to itself.
-		return v.rankFloats(first.Float(), second.Float()) == EqualRank
-	}
-	return first.Interface() == second.Interface()
+	// The two values belong to the same family of intrinsic types but need not
+	// have the same Go type (an int8 and an int64 are both integers).  They
+	// are equal exactly when they are ranked as equal.
+	return v.rankIntrinsics(first, second) == EqualRank
 }
 
 func (v *collator_[V]) compareSequences(first ref.Value, second ref.Value) bool {
